@@ -103,6 +103,17 @@ def r1(ctx: Ctx, f: FuncInfo, linevar: str) -> None:
     if len(paths) >= 20000:
         ctx.unknown('C17.R1', f, 'too many paths through the line loop body')
     carried = _carried_names(f, loop)
+    # a local bound only to storage reachable from a carried name (`target = sections[-1].variables`) is a view of that storage
+    for _pass in range(3):
+        binds: Dict[str, List[ast.AST]] = {}
+        for n in ast.walk(loop):
+            if isinstance(n, ast.Assign):
+                for t in n.targets:
+                    if isinstance(t, ast.Name):
+                        binds.setdefault(t.id, []).append(n.value)
+        for name, vals in binds.items():
+            if name not in carried and all(isinstance(v, (ast.Name, ast.Attribute, ast.Subscript)) and _root(v) in carried for v in vals):
+                carried = carried | {name}
     silent = []
     for p in paths:
         if p[-1] != CONT:
@@ -330,6 +341,87 @@ def r4(ctx: Ctx, mp: FuncInfo, ps: FuncInfo) -> None:
     ctx.check("header_match.group(1).strip()" in src(loop), 'C17.R4', ps, 'name-stripped', 'view names are stripped', 'view names keep surrounding blanks')
 
 
+_MUTATORS = ('append', 'add', 'update', 'extend', 'insert', 'setdefault', 'pop', 'remove', 'clear')
+
+
+def _is_fresh_value(v) -> bool:
+    return isinstance(v, (ast.Dict, ast.List, ast.Set, ast.ListComp, ast.DictComp, ast.SetComp)) or \
+        (isinstance(v, ast.Call) and isinstance(v.func, ast.Name) and v.func.id in ('dict', 'list', 'set', 'defaultdict', 'OrderedDict') and not v.args) or \
+        (isinstance(v, ast.Call) and call_name(v) == 'deepcopy')
+
+
+def _fresh_containers(ctx: Ctx, mp: FuncInfo) -> None:
+    fl = get_flow(ctx.proj, mp)
+    cfg = fl.cfg
+    loop = _line_loop(ctx, mp)
+    sites = []          # (record name, key, node)
+    for n in ast.walk(loop):
+        recv = None
+        if isinstance(n, ast.Call) and isinstance(n.func, ast.Attribute) and n.func.attr in _MUTATORS:
+            recv = n.func.value
+        elif isinstance(n, (ast.Assign, ast.AugAssign)):
+            for t in (n.targets if isinstance(n, ast.Assign) else [n.target]):
+                if isinstance(t, ast.Subscript) and isinstance(t.value, ast.Subscript):
+                    recv = t.value
+        if isinstance(recv, ast.Subscript) and isinstance(recv.value, ast.Name) and isinstance(recv.slice, ast.Constant) and isinstance(recv.slice.value, str):
+            sites.append((recv.value.id, recv.slice.value, n))
+    checked = 0
+    for rec, key, node in sites:
+        st = fl.stmt_of(node)
+        # the entry was given a fresh value for this section (`if k not in r: r[k] = []`)
+        own = [s_ for s_ in ast.walk(loop) if isinstance(s_, ast.Assign) and any(isinstance(t, ast.Subscript) and isinstance(t.value, ast.Name) and t.value.id == rec
+                                                                                 and isinstance(t.slice, ast.Constant) and t.slice.value == key for t in s_.targets)]
+        if own and all(_is_fresh_value(s_.value) for s_ in own):
+            checked += 1
+            ctx.ok('C17.R5', mp, f"{rec}[{key!r}] is created for the section that uses it", node, f'fresh-container:{key}')
+            continue
+        verdicts = []
+        for d in cfg.defs_reaching(st, rec):
+            v = getattr(cfg.stmt.get(d), 'value', None) if d != 'param' else None
+            if v is None or (isinstance(v, ast.Constant) and v.value is None):
+                continue
+            tmpl = None
+            if isinstance(v, ast.Dict):
+                ent = [val for k_, val in zip(v.keys, v.values) if isinstance(k_, ast.Constant) and k_.value == key]
+                spread = [val for k_, val in zip(v.keys, v.values) if k_ is None]
+                if ent:
+                    verdicts.append(_is_fresh_value(ent[-1]) or None)
+                    continue
+                tmpl = spread[0] if spread else None
+            elif isinstance(v, ast.Call) and isinstance(v.func, ast.Name) and v.func.id == 'dict' and v.args:
+                kw = [k_.value for k_ in v.keywords if k_.arg == key]
+                if kw:
+                    verdicts.append(_is_fresh_value(kw[0]) or None)
+                    continue
+                tmpl = v.args[0]
+            elif isinstance(v, ast.Call) and isinstance(v.func, ast.Attribute) and v.func.attr == 'copy' and not v.args:
+                tmpl = v.func.value
+            if isinstance(tmpl, ast.Name):
+                # the template: where is it made, and does it hold a container under this key?
+                tdefs = [s_ for s_ in ast.walk(mp.node) if isinstance(s_, (ast.Assign, ast.AnnAssign)) and any(isinstance(t, ast.Name) and t.id == tmpl.id
+                         for t in (s_.targets if isinstance(s_, ast.Assign) else [s_.target]))]
+                shared = False
+                for td in tdefs:
+                    tv = td.value
+                    if isinstance(tv, ast.Dict):
+                        ent = [val for k_, val in zip(tv.keys, tv.values) if isinstance(k_, ast.Constant) and k_.value == key]
+                        if ent and _is_fresh_value(ent[-1]) and not any(a is loop for a in ancestors(td)):
+                            shared = True
+                verdicts.append(False if shared else None)
+            else:
+                verdicts.append(None)
+        if any(v is False for v in verdicts):
+            checked += 1
+            ctx.fail('C17.R5', mp, f'fresh-container:{key}',
+                     f"{src(node)[:60]!r} writes into {rec}[{key!r}], which every section's record shares with the template it was copied from (a one-level copy): "
+                     f'a `{key}` line of one section ends up in the rules of all the others, so a section no longer yields exactly its stated properties', node)
+        elif verdicts and all(v is True for v in verdicts):
+            checked += 1
+            ctx.ok('C17.R5', mp, f"{rec}[{key!r}] is created with the section's record", node, f'fresh-container:{key}')
+    if not checked and sites:
+        ctx.unknown('C17.R5', mp, 'cannot tell where the per-section containers (let_bindings / fields) are created')
+
+
 def r5(ctx: Ctx, mp: FuncInfo, ps: FuncInfo) -> None:
     proj = ctx.proj
     add = proj.func('merchant_engine.MerchantEngine._add_rule')
@@ -358,7 +450,8 @@ def r5(ctx: Ctx, mp: FuncInfo, ps: FuncInfo) -> None:
         e = resolve(e)
         t = src(e).replace(' ', '')
         for sym, key in (('C', 'category'), ('T', 'tags')):
-            if t in (f"'{key}'inrule_dataandrule_data['{key}']", f"rule_data.get('{key}')", f"bool(rule_data.get('{key}'))", f"'{key}'inrule_dataandbool(rule_data['{key}'])"):
+            if t in (f"'{key}'inrule_dataandrule_data['{key}']", f"rule_data.get('{key}')", f"bool(rule_data.get('{key}'))", f"'{key}'inrule_dataandbool(rule_data['{key}'])",
+                     f"rule_data['{key}']", f"bool(rule_data['{key}'])"):
                 return lambda env, s_=sym: env[s_]
         if isinstance(e, ast.UnaryOp) and isinstance(e.op, ast.Not):
             f1 = fn(e.operand)
@@ -386,6 +479,10 @@ def r5(ctx: Ctx, mp: FuncInfo, ps: FuncInfo) -> None:
     in_loop = any(isinstance(a, (ast.For, ast.While)) for a in ancestors(app[0]))
     ctx.check(len(app) == 1 and not in_loop and cfg.dominates(bst, afl.stmt_of(app[0])), 'C17.R5', add, 'one-rule',
               'each section yields exactly one rule', 'the rule append is conditional or repeated')
+    # every section yields a rule with exactly *its* properties: the containers a section's let: / field: / tags: lines are collected in belong to that
+    # section alone.  A per-section record made as a one-level copy of a shared template (`dict(defaults, name=…)`, `defaults.copy()`, `{**defaults}`)
+    # still holds the template's lists and dicts: what one section appends shows up in every other rule.
+    _fresh_containers(ctx, mp)
     # parse(): malformed arms raise.  Arms are recognised by the branch outcomes that lead to the raise, not by the message text.
     loop = _line_loop(ctx, mp)
     pfl = get_flow(proj, mp)
@@ -393,7 +490,14 @@ def r5(ctx: Ctx, mp: FuncInfo, ps: FuncInfo) -> None:
 
     def has_raise(pred):
         return any(pred(g) for _r, g in raises)
-    key_true = lambda g, k: g.get(f"key == '{k}'") is True
+    def key_true(g, k):
+        if g.get(f"key == '{k}'") is True:
+            return True
+        # arms merged under `key in ('let', 'field')`
+        for t, tr in g.items():
+            if tr is True and t.startswith('key in ') and f"'{k}'" in t:
+                return True
+        return False
     arms = {
         'bad-let': lambda g: key_true(g, 'let'),
         'bad-field': lambda g: key_true(g, 'field'),
